@@ -1,4 +1,5 @@
 import GridVerif.Props.C08
+import GridVerif.Props.C02.Exact
 
 #print axioms GridVerif.C08.row_index_bij
 #print axioms GridVerif.C08.ylm_rows_spec
@@ -6,3 +7,29 @@ import GridVerif.Props.C08
 #print axioms GridVerif.C08.ylm_low_degree
 #print axioms GridVerif.C08.ylm_norm_eq_code
 #print axioms GridVerif.C08.weights_sum
+#print axioms GridVerif.C02.allOkUnit_sound
+#print axioms GridVerif.C02.allOk4pi_sound
+#print axioms GridVerif.C02.quadQ_eq
+#print axioms GridVerif.C02.poly_bound
+#print axioms GridVerif.C02.carried_eq
+#print axioms GridVerif.C02.lebedev_11_50_poly
+#print axioms GridVerif.C02.lebedev_3_6_exact
+#print axioms GridVerif.C02.lebedev_5_18_exact
+#print axioms GridVerif.C02.lebedev_7_26_exact
+#print axioms GridVerif.C02.lebedev_9_38_exact
+#print axioms GridVerif.C02.lebedev_11_50_exact
+#print axioms GridVerif.C02.spherical_1_2_exact
+#print axioms GridVerif.C02.spherical_3_6_exact
+#print axioms GridVerif.C02.spherical_5_12_exact
+#print axioms GridVerif.C02.spherical_7_32_exact
+#print axioms GridVerif.C02.spherical_9_48_exact
+#print axioms GridVerif.C02.spherical_11_70_exact
+#print axioms GridVerif.C02.maxdet_1_4_exact
+#print axioms GridVerif.C02.maxdet_2_9_exact
+#print axioms GridVerif.C02.maxdet_3_16_exact
+#print axioms GridVerif.C02.maxdet_4_25_exact
+#print axioms GridVerif.C02.maxdet_5_36_exact
+#print axioms GridVerif.C02.maxdet_6_49_exact
+#print axioms GridVerif.C02.maxdet_7_64_exact
+#print axioms GridVerif.C02.maxdet_8_81_exact
+#print axioms GridVerif.C02.maxdet_9_100_exact
